@@ -354,6 +354,7 @@ type rdPredict struct {
 	fin     uint64
 	finHash common.Hash
 	active  bool
+	lost    bool  // the prediction lost track of the current tick
 	sec     int64 // the second in which the tick started (the detector reads the clock right after the finalized header)
 	e       *env
 	ch      chan uint64
@@ -369,10 +370,13 @@ func (p *rdPredict) onHeader(key string, n uint64, hash common.Hash, ok bool) {
 	switch {
 	case key == "fin":
 		p.nums, p.hashes = p.rd.VerifTracked(syncerID)
-		p.pos, p.fin, p.finHash, p.active, p.sec = 0, n, hash, true, time.Now().Unix()
+		p.pos, p.fin, p.finHash, p.active, p.sec, p.lost = 0, n, hash, true, time.Now().Unix(), false
 	case strings.HasPrefix(key, "hdr:") && p.active:
 		if p.pos >= len(p.nums) || p.nums[p.pos] != n {
-			p.active = false // not where the prediction thinks the tick is: stop predicting (a notification would then be missed and reported as stuck)
+			// not where the prediction thinks the tick is (a block was tracked between the finalized header's answer and the
+			// detector's own snapshot): no prediction for the rest of this tick; the relay falls back on "the detector has
+			// been silent for a while, so it is blocked in its notification" (lost)
+			p.active, p.lost = false, true
 			return
 		}
 		if p.hashes[p.pos] != hash {
@@ -453,10 +457,31 @@ func (d *detWrap) relay(realSub, h *reorgdetector.Subscription) {
 	nop := func(bool) (tr.M, error) { return tr.M{}, nil }
 	for {
 		var n uint64
-		select {
-		case n = <-d.pred.ch:
-		case <-ctx.Done():
-			return
+		silent := 0
+	wait:
+		for {
+			select {
+			case n = <-d.pred.ch:
+				break wait
+			case <-ctx.Done():
+				return
+			case <-time.After(20 * time.Millisecond):
+				// fallback when the prediction lost track of the tick: a detector that is at no gate for 100 ms is blocked in its
+				// notification (between two RPCs it only touches its own database)
+				d.pred.mu.Lock()
+				lost := d.pred.lost
+				d.pred.mu.Unlock()
+				if lost && d.n.e.find("rd") == nil {
+					if silent++; silent >= 5 {
+						d.pred.mu.Lock()
+						d.pred.lost = false
+						d.pred.mu.Unlock()
+						break wait
+					}
+				} else {
+					silent = 0
+				}
+			}
 		}
 		if d.n.e.gated(ctx, "rd", fmt.Sprintf("notify:%d", n), "notify", nop) != nil {
 			return
